@@ -8,8 +8,8 @@ Carried between two `check()` calls (everything else is local to `checkInternal`
   * `Suppressions::nomsg.mSuppressions`  – inline suppressions are *added* while a file is analysed
     (`Preprocessor::inlineSuppressions` → `SuppressionList::addSuppression`) and never removed;
   * `CppCheckLogger::mErrorList` / `mSuppressedErrorList` – duplicate filters, cleared by `mLogger->clear()`
-    at the END of `checkInternal` only (not on the early `return`s: preprocessor error, results taken from
-    the build dir, `--check-config`, termination);
+    at the start of `checkInternal` (8f62378) and at its end; before 8f62378 only at the end, i.e. not on the early
+    `return`s (preprocessor error, results taken from the build dir, `--check-config`, termination);
   * `CppCheckLogger::mLocationMacros` – replaced by `setLocationMacros` once per analysed configuration,
     never cleared between files;
   * `CppCheckLogger::mRemarkComments` – replaced by `setRemarkComments` once per file (after the file was read);
@@ -91,7 +91,8 @@ structure Cfg (S : Type) where
   nofail : Finding → List Str → Bool
   /-- `mSettings.emitDuplicates` -/
   emitDuplicates : Bool
-  /-- code variant: `mLogger->clear()` also at the start of `checkInternal` (proposed repair; current code: false) -/
+  /-- code variant: `mLogger->clear()` also at the start of `checkInternal` (true = the code since 8f62378, the model of
+      record; false = the code before, kept for the regression theorem only) -/
   clearAtStart : Bool
 
 /-- what the analysis of one file hands on -/
@@ -318,7 +319,8 @@ def splitLines : Str → Str → List Str
 def symbolMatch (pat : Str) (symbols : Str) : Bool :=
   if symbols.isEmpty then false else (splitLines [] symbols).any (fun n => Glob.matchglob pat n)
 
-/-- which variant of the file test: `exactInline` = proposed repair (an inline suppression names exactly its file) -/
+/-- which variant of the file test: `exactInline` = a repair that was proposed and rejected (it breaks `-rp` with several
+    base paths); the code of record is `false` -/
 def fileTest (exactInline : Bool) (s : Suppr) (file : Str) : Bool :=
   if exactInline && s.isInline then s.fileName == file
   else PathMatch.pathMatch PathCanon.Variant.fixed .unix .regular s.fileName file []
@@ -340,7 +342,7 @@ def supprMatches (exactInline : Bool) (s : Suppr) (x : Finding) (macros : List S
       let blockOk := !(s.type == .block && (x.line < s.lineBegin || x.line > s.lineEnd))
       lineOk && fileOk && idOk && blockOk && symOk
 
-/-- the configuration of the real code: `exactInline = false`, `clearAtStart = false` unless the repairs are in -/
+/-- the configuration of the real code: `exactInline = false`, `clearAtStart = true` -/
 def realCfg (exactInline clearAtStart emitDuplicates : Bool) (nofail : List Suppr) : Cfg Suppr :=
   { same := sameParams
     hits := supprMatches exactInline
